@@ -285,6 +285,7 @@ inductive Op
   | fromOptions (options : List String) (profile : Profile) (source : String) (allowNew : Bool)
   | fromSection (otherName : String) (other : Section) (sect : Option String) (allowNew : Bool)
   | fromText (text source : String) (allowNew caseSensitive : Bool)
+  | fromFile (text source : String) (allowNew caseSensitive : Bool)
   | setProfiles (v : Option (List Profile))
   | setMaster (m : Option String)
   | updateVars (d : List (String × String))
@@ -296,6 +297,7 @@ def applyOp (c : Cfg) : Op → Cfg
   | .fromOptions o p src a => (c.updateFromOptions o p src a).1
   | .fromSection n other s a => (c.updateFromSection n other s a).1
   | .fromText t src a cs => match c.updateFromText t src a cs with | .ok r => r.1 | .error _ => c
+  | .fromFile t src a cs => match c.updateFromFile t src a cs with | .ok r => r.1 | .error _ => c
   | .setProfiles v => c.setProfiles v
   | .setMaster m => { c with master := m }
   | .updateVars d => c.updateVars d
@@ -325,6 +327,16 @@ theorem applyOp_good (c : Cfg) (op : Op) (h : Good c) : Good (applyOp c op) := b
     cases readIniRaw (!cs) t with
     | error e => exact h
     | ok raw => exact updateMany_good _ _ c [] h.1
+  | fromFile t src a cs =>
+    simp only [applyOp, Cfg.updateFromFile]
+    cases readIniRaw (!cs) t with
+    | error e => exact h
+    | ok raw =>
+      simp only [Except.map]
+      apply updateMany_good
+      split
+      · exact h.1
+      · exact h.1
   | setProfiles v =>
     simp only [applyOp, Cfg.setProfiles]
     exact ⟨h.1, rfl⟩
@@ -732,6 +744,13 @@ theorem getReplaced_own_hit (c : Cfg) (rest : List Cfg) (key s : String) (dflt :
     getReplaced (c :: rest) key none (some s) dflt callVars rdflt =
       .ok (0, key, e, entryReplace c.vars callVars rdflt e.value) := by
   simp [getReplaced, getAt_own_hit c rest key s dflt sec e hs hk, Except.map, varsAt_zero]
+
+/-- `cfg[section][key]` of an own section is filled in from the configuration's own variables -/
+theorem itemReplaced_own_hit (c : Cfg) (rest : List Cfg) (s key : String) (sec : Section) (e : Entry)
+    (callVars : List (String × String)) (rdflt : Option String)
+    (hs : dget? c.sections s = some sec) (hk : dget? sec key = some e) :
+    itemReplaced (c :: rest) s key callVars rdflt = .ok (0, e, entryReplace c.vars callVars rdflt e.value) := by
+  simp [itemReplaced, getItemAt, hs, sectionEntry, hk, Except.map, varsAt_zero]
 
 /-- **an entry found in the fallback chain reads exactly as when the fallback configuration is asked itself**
 (same entry, same replaced text; only the position moves by one) -/
@@ -1247,6 +1266,233 @@ replacement is the identity — which is why the file reader of the model may sk
 theorem replace_no_vars (fuel : Nat) (s : List Char) : replaceVars [] none (fuel + 1) s = .ok s :=
   replace_unknown_untouched [] fuel s (by intro m _; rfl)
 
+/-! ### A known variable is substituted by its value -/
+
+theorem takeWhile_append_stop {α} (p : α → Bool) (l : List α) (x : α) (r : List α)
+    (hl : ∀ a ∈ l, p a = true) (hx : p x = false) : (l ++ x :: r).takeWhile p = l := by
+  induction l with
+  | nil => simp [hx]
+  | cons a t ih =>
+    have ha := hl a (by simp)
+    simp [ha, ih (fun b hb => hl b (List.mem_cons_of_mem _ hb))]
+
+theorem dropWhile_append_stop {α} (p : α → Bool) (l : List α) (x : α) (r : List α)
+    (hl : ∀ a ∈ l, p a = true) (hx : p x = false) : (l ++ x :: r).dropWhile p = x :: r := by
+  induction l with
+  | nil => simp [hx]
+  | cons a t ih =>
+    have ha := hl a (by simp)
+    simp [ha, ih (fun b hb => hl b (List.mem_cons_of_mem _ hb))]
+
+theorem isWord_close : isWord '}' = false := by decide
+
+/-- the regular expression matches `{name}` at a brace followed by a non-empty run of word characters and `}` -/
+theorem matchVar_plain (name post : List Char) (hne : name ≠ []) (hw : ∀ c ∈ name, isWord c = true) :
+    matchVar (name ++ '}' :: post) = some (name, none, post) := by
+  simp only [matchVar, takeWhile_append_stop isWord name '}' post hw isWord_close,
+    dropWhile_append_stop isWord name '}' post hw isWord_close]
+  cases name with
+  | nil => exact absurd rfl hne
+  | cons a t => simp
+
+/-- braces-free text before a match is skipped -/
+theorem findVars_skip (pre t : List Char) (n : Nat) (hpre : '{' ∉ pre) :
+    findVars (pre.length + n) (pre ++ t) = findVars n t := by
+  induction pre with
+  | nil => simp
+  | cons c p ih =>
+    have hc : c ≠ '{' := by intro hc; subst hc; simp at hpre
+    have hp : '{' ∉ p := fun h => hpre (List.mem_cons_of_mem _ h)
+    have : (c :: p).length + n = (p.length + n) + 1 := by simp only [List.length_cons]; omega
+    rw [this]
+    simp [findVars, hc, ih hp]
+
+/-- exactly one reference is found in `pre{name}post` when `pre` and `post` have no opening brace -/
+theorem findVars_single (pre name post : List Char) (hpre : '{' ∉ pre) (hpost : '{' ∉ post)
+    (hne : name ≠ []) (hw : ∀ c ∈ name, isWord c = true) :
+    findVars (pre ++ '{' :: name ++ '}' :: post).length (pre ++ '{' :: name ++ '}' :: post) = [⟨name, none⟩] := by
+  have hlen : (pre ++ '{' :: name ++ '}' :: post).length = pre.length + ((name ++ '}' :: post).length + 1) := by
+    simp only [List.length_append, List.length_cons]; omega
+  have happ : pre ++ '{' :: name ++ '}' :: post = pre ++ ('{' :: (name ++ '}' :: post)) := by simp
+  rw [hlen, happ, findVars_skip pre _ _ hpre]
+  simp [findVars, matchVar_plain name post hne hw, findVars_no_brace _ post hpost]
+
+theorem isPrefix_append (a b : List Char) : isPrefix a (a ++ b) = true := by
+  induction a with
+  | nil => simp [isPrefix]
+  | cons x t ih => simp [isPrefix, ih]
+
+theorem replaceAll_no_brace (rest new : List Char) (n : Nat) (s : List Char) (h : '{' ∉ s) :
+    replaceAll ('{' :: rest) new n s = s := by
+  induction s generalizing n with
+  | nil => cases n <;> rfl
+  | cons c t ih =>
+    cases n with
+    | zero => rfl
+    | succ n =>
+      have hc : c ≠ '{' := by intro hc; subst hc; simp at h
+      have ht : '{' ∉ t := fun ht => h (List.mem_cons_of_mem _ ht)
+      have hpf : isPrefix ('{' :: rest) (c :: t) = false := by
+        simp only [isPrefix]; simp; intro e; exact absurd e.symm hc
+      simp only [replaceAll, hpf, Bool.false_eq_true, if_false]
+      rw [ih n ht]
+
+/-- `text.replace("{name}", new)` on `pre{name}post` -/
+theorem replaceAll_single (pre rest post new : List Char) (n : Nat) (hpre : '{' ∉ pre) (hpost : '{' ∉ post)
+    (hn : pre.length < n) :
+    replaceAll ('{' :: rest) new n (pre ++ (('{' :: rest) ++ post)) = pre ++ (new ++ post) := by
+  induction pre generalizing n with
+  | nil =>
+    cases n with
+    | zero => simp at hn
+    | succ n =>
+      have hp : isPrefix ('{' :: rest) ('{' :: (rest ++ post)) = true := isPrefix_append ('{' :: rest) post
+      show replaceAll ('{' :: rest) new (n + 1) ('{' :: (rest ++ post)) = new ++ post
+      simp only [replaceAll, hp, if_true]
+      have hd : ('{' :: (rest ++ post)).drop ('{' :: rest).length = post := by
+        show (('{' :: rest) ++ post).drop ('{' :: rest).length = post
+        simp
+      rw [hd, replaceAll_no_brace rest new n post hpost]
+  | cons c p ih =>
+    cases n with
+    | zero => simp at hn
+    | succ n =>
+      have hc : c ≠ '{' := by intro hc; subst hc; simp at hpre
+      have hp : '{' ∉ p := fun h => hpre (List.mem_cons_of_mem _ h)
+      have hn' : p.length < n := by simp only [List.length_cons] at hn; omega
+      have hpf : isPrefix ('{' :: rest) (c :: (p ++ (('{' :: rest) ++ post))) = false := by
+        simp only [isPrefix]; simp; intro e; exact absurd e.symm hc
+      show replaceAll ('{' :: rest) new (n + 1) (c :: (p ++ (('{' :: rest) ++ post))) = c :: (p ++ (new ++ post))
+      simp only [replaceAll, hpf, Bool.false_eq_true, if_false]
+      rw [ih n hp hn']
+
+theorem formatStr_none (text : List Char) : formatStr none text = some text := by
+  unfold formatStr; rfl
+
+/-- **a reference to a known variable is replaced by the variable's value**: in a text `pre{name}post` with no other
+opening brace, with `name` a known variable whose value has no brace, `_replace` returns `pre` + value + `post` — whatever
+the default is, whatever other variables are defined -/
+theorem replace_known_variable (vars : List (String × String)) (dflt : Option String) (fuel : Nat)
+    (pre name post : List Char) (v : String)
+    (hpre : '{' ∉ pre) (hpost : '{' ∉ post) (hne : name ≠ []) (hw : ∀ c ∈ name, isWord c = true)
+    (hv : dget? vars (String.ofList name) = some v) (hvb : '{' ∉ v.toList) :
+    replaceVars vars dflt (fuel + 2) (pre ++ '{' :: name ++ '}' :: post) = .ok (pre ++ v.toList ++ post) := by
+  have hs : pre ++ '{' :: name ++ '}' :: post = pre ++ (('{' :: (name ++ ['}'])) ++ post) := by simp
+  have hex : VarMatch.expr ⟨name, none⟩ = '{' :: (name ++ ['}']) := rfl
+  rw [replaceVars, findVars_single pre name post hpre hpost hne hw]
+  simp only [List.foldl_cons, List.foldl_nil, hv, replace_no_braces vars dflt fuel v.toList hvb, Except.map,
+    formatStr_none, hex]
+  rw [hs, replaceAll_single pre (name ++ ['}']) post v.toList _ hpre hpost
+    (by simp only [List.length_append, List.length_cons]; omega)]
+  simp
+
+/-- the same through `entry.replace(default, **call_vars)` -/
+theorem entryReplace_known_variable (entryVars callVars : List (String × String)) (dflt : Option String)
+    (pre name post : List Char) (v : String)
+    (hpre : '{' ∉ pre) (hpost : '{' ∉ post) (hne : name ≠ []) (hw : ∀ c ∈ name, isWord c = true)
+    (hv : dget? (callVars.foldl (fun acc kx => dset acc kx.1 kx.2) entryVars) (String.ofList name) = some v)
+    (hvb : '{' ∉ v.toList) :
+    entryReplace entryVars callVars dflt (String.ofList (pre ++ '{' :: name ++ '}' :: post)) =
+      .ok (String.ofList (pre ++ v.toList ++ post)) := by
+  simp only [entryReplace, String.toList_ofList]
+  rw [replace_known_variable _ dflt 62 pre name post v hpre hpost hne hw hv hvb]
+  rfl
+
+example : entryReplace [("root", "/data")] [] none "{root}/out" = .ok "/data/out" :=
+  entryReplace_known_variable [("root", "/data")] [] none [] "root".toList "/out".toList "/data"
+    (by simp) (by decide) (by decide) (by decide) (by decide) (by decide)
+
+/-! ### `update_from_file` with `DEFAULT`, `__replace__`, `__vars__` -/
+
+theorem takeOk_map_ok {ε α} (l : List α) : takeOk (l.map (Except.ok (ε := ε))) = (l, none) := by
+  induction l with
+  | nil => rfl
+  | cons a t ih => simp [takeOk, ih]
+
+theorem replaceIn_nil (s : String) : replaceIn [] s = .ok s := by
+  simp [replaceIn, replace_no_vars 63 s.toList, Except.map]
+
+theorem joinValueR_nil (vs : List (List Char)) : joinValueR [] vs = .ok (joinValue vs) := by
+  simp [joinValueR, replaceIn_nil, Except.map, joinValue, rawValue]
+
+theorem sectionUpdatesR_nil (source : String) (allowNew : Bool) (n : String) (opts : List RawOpt) :
+    sectionUpdatesR [] source allowNew n opts = (sectionUpdates source allowNew n opts).map .ok := by
+  simp only [sectionUpdatesR, sectionUpdates]
+  split
+  · rfl
+  · rw [List.map_filterMap]
+    congr 1
+    funext o
+    split
+    · rfl
+    · cases hv : o.value with
+      | none => simp [replaceIn_nil]
+      | some vs => simp [replaceIn_nil, joinValueR_nil]
+
+theorem fileUpdatesR_nil (source : String) (allowNew : Bool) (raw : List (String × List RawOpt)) :
+    fileUpdatesR [] source allowNew raw = (fileUpdates source allowNew raw).map .ok := by
+  simp [fileUpdatesR, fileUpdates, sectionUpdatesR_nil, List.map_flatMap]
+
+/-- **the extended reader is conservative**: for a file without `DEFAULT`, `__replace__` and `__vars__` sections
+`update_from_file` is the reader of the round-trip theorems (`Cfg.updateFromText`) -/
+theorem updateFromFile_plain (c : Cfg) (text source : String) (allowNew caseSensitive : Bool)
+    (raw : List (String × List RawOpt)) (hraw : readIniRaw (!caseSensitive) text = .ok raw)
+    (hd : dget? raw "DEFAULT" = none) (hr : dget? raw "__replace__" = none) (hv : dget? raw "__vars__" = none) :
+    c.updateFromFile text source allowNew caseSensitive =
+      (c.updateFromText text source allowNew caseSensitive).map (fun r => (r.1, r.2.map FileErr.cfg)) := by
+  simp only [Cfg.updateFromFile, Cfg.updateFromText, hraw, Except.map, applyDefaults, hd, hr, hv, replaceTable,
+    fileUpdatesR_nil, takeOk_map_ok]
+  cases ((c.updateMany false (fileUpdates source allowNew raw) []).2.1) <;> rfl
+
+theorem updateRaw_vars (c c' : Cfg) (u : Upd) (h : c.updateRaw u = .ok c') : c'.vars = c.vars := by
+  simp only [Cfg.updateRaw] at h
+  split at h
+  · simp at h
+  · simp at h; rw [← h]
+
+theorem updateMany_vars (skip : Bool) (l : List (String × Upd)) (c : Cfg) (done : List String) :
+    (c.updateMany skip l done).1.vars = c.vars := by
+  induction l generalizing c done with
+  | nil => rfl
+  | cons tu t ih =>
+    obtain ⟨tag, u⟩ := tu
+    simp only [Cfg.updateMany]
+    cases hu : c.updateRaw u with
+    | ok c' => simp only; rw [ih, updateRaw_vars c c' u hu]
+    | error e =>
+      simp only
+      split
+      · exact ih c done
+      · rfl
+
+/-- **`__vars__`**: after `update_from_file` the variables are the old ones overlaid with the items of the `__vars__`
+section of the file (with the `DEFAULT` options seen in it) — also when an entry of the file is refused or a
+replacement raises; without such a section the variables are untouched -/
+theorem updateFromFile_vars (c c' : Cfg) (text source : String) (allowNew caseSensitive : Bool) (e : Option FileErr)
+    (raw : List (String × List RawOpt)) (hraw : readIniRaw (!caseSensitive) text = .ok raw)
+    (h : c.updateFromFile text source allowNew caseSensitive = .ok (c', e)) :
+    c'.vars = match dget? (applyDefaults raw) "__vars__" with
+      | some os => (c.updateVarsOpt (sectionItems os)).vars
+      | none => c.vars := by
+  simp only [Cfg.updateFromFile, hraw, Except.map] at h
+  injection h with h
+  have h1 := congrArg Prod.fst h
+  simp only at h1
+  rw [← h1, updateMany_vars]
+  cases dget? (applyDefaults raw) "__vars__" <;> rfl
+
+/-- sections whose name starts with `__` (`__vars__`, `__replace__`, …) define no entries -/
+theorem dunder_sections_no_entries (rv : List (String × String)) (source : String) (allowNew : Bool) (n : String)
+    (rest : List Char) (hn : n.toList = '_' :: '_' :: rest) (opts : List RawOpt) :
+    sectionUpdatesR rv source allowNew n opts = [] := by
+  simp [sectionUpdatesR, hn, partDunder]
+
+example : (match (Cfg.new "c").updateFromFile
+    "[DEFAULT]\nunit = m\n[__vars__]\nroot = /data\n[__replace__]\nsta = zimm\n[s1]\nk_{sta} = {root}/{sta}.txt\n" "f" true false with
+    | .ok (c', none) => c'.vars == [("root", "/data"), ("unit", "m")] &&
+        c'.sections == [("s1", [("k_zimm", ⟨"{root}/zimm.txt", "f", []⟩), ("unit", ⟨"m", "f", []⟩)])]
+    | _ => false) = true := by decide +kernel
+
 /-! ### Profile selections -/
 
 /-- whatever is assigned to `cfg.profiles`, the profile-less level `None` ends the priority list
@@ -1589,3 +1835,26 @@ end Midgard.Props.C19
 #print axioms Midgard.Props.C19.getAt_ignores_vars
 #print axioms Midgard.Props.C19.ownLookupAt_ignores_fallback_vars
 #print axioms Midgard.Props.C19.default_ignores_fallback_vars
+#print axioms Midgard.Props.C19.takeOk_map_ok
+#print axioms Midgard.Props.C19.replaceIn_nil
+#print axioms Midgard.Props.C19.joinValueR_nil
+#print axioms Midgard.Props.C19.sectionUpdatesR_nil
+#print axioms Midgard.Props.C19.fileUpdatesR_nil
+#print axioms Midgard.Props.C19.updateFromFile_plain
+#print axioms Midgard.Props.C19.updateRaw_vars
+#print axioms Midgard.Props.C19.updateMany_vars
+#print axioms Midgard.Props.C19.updateFromFile_vars
+#print axioms Midgard.Props.C19.dunder_sections_no_entries
+#print axioms Midgard.Props.C19.itemReplaced_own_hit
+#print axioms Midgard.Props.C19.takeWhile_append_stop
+#print axioms Midgard.Props.C19.dropWhile_append_stop
+#print axioms Midgard.Props.C19.isWord_close
+#print axioms Midgard.Props.C19.matchVar_plain
+#print axioms Midgard.Props.C19.findVars_skip
+#print axioms Midgard.Props.C19.findVars_single
+#print axioms Midgard.Props.C19.isPrefix_append
+#print axioms Midgard.Props.C19.replaceAll_no_brace
+#print axioms Midgard.Props.C19.replaceAll_single
+#print axioms Midgard.Props.C19.formatStr_none
+#print axioms Midgard.Props.C19.replace_known_variable
+#print axioms Midgard.Props.C19.entryReplace_known_variable
